@@ -23,6 +23,7 @@ structure Inv (b : Base) (st : State) : Prop where
   basePts : st.hp 0 = b.pts
   baseEqs : st.he 0 = []
   baseEl : st.hel 0 = b.elems
+  noShare : ∀ i s, st.scns i = some s → s.cShared = false ∧ s.pShared = false
 
 structure Rel (st : State) (i : Nat) (ss : SoloSt) : Prop where
   mgrs : st.mgrs = ss.mgrs
@@ -36,16 +37,17 @@ theorem rel_init (b : Base) (i : Nat) : Rel (State.init b) i { mgrs := fun _ => 
 
 /-- scenario objects of `st'` sit on the same cells as those of `st` -/
 def SameRefs (st st' : State) : Prop :=
-  ∀ j s', st'.scns j = some s' → ∃ s, st.scns j = some s ∧ s'.ref = s.ref ∧ s'.ptsRef = s.ptsRef ∧ s'.elRef = s.elRef
+  ∀ j s', st'.scns j = some s' → ∃ s, st.scns j = some s ∧ s'.ref = s.ref ∧ s'.ptsRef = s.ptsRef ∧ s'.elRef = s.elRef ∧
+    s'.cShared = s.cShared ∧ s'.pShared = s.pShared
 
-theorem same_self (st : State) : SameRefs st st := fun _ s' h => ⟨s', h, rfl, rfl, rfl⟩
+theorem same_self (st : State) : SameRefs st st := fun _ s' h => ⟨s', h, rfl, rfl, rfl, rfl, rfl⟩
 
 /-- Operations that allocate nothing, keep every scenario on its cells and leave the base model's
 cells alone preserve the invariant. -/
 theorem inv_frame (b : Base) (st st' : State) (h : Inv b st)
     (hnext : st'.next = st.next) (hscn : SameRefs st st')
     (hel : st'.hel = st.hel) (hp0 : st'.hp 0 = st.hp 0) (he0 : st'.he 0 = st.he 0) : Inv b st' := by
-  obtain ⟨nextPos, refLt, refInj, ptsOwn, elLt, elOk, basePts, baseEqs, baseEl⟩ := h
+  obtain ⟨nextPos, refLt, refInj, ptsOwn, elLt, elOk, basePts, baseEqs, baseEl, noShare⟩ := h
   constructor
   · omega
   · intro j s' hj; obtain ⟨s, hs, h1, _, _⟩ := hscn j s' hj; have := refLt j s hs; omega
@@ -54,24 +56,25 @@ theorem inv_frame (b : Base) (st st' : State) (h : Inv b st)
     obtain ⟨s2, hs2, h2, _, _⟩ := hscn k sk hk
     exact refInj j k s1 s2 hs1 hs2 (by omega)
   · intro j s' hj; obtain ⟨s, hs, h1, h2, _⟩ := hscn j s' hj; have := ptsOwn j s hs; omega
-  · intro j s' hj; obtain ⟨s, hs, _, _, h3⟩ := hscn j s' hj; have := elLt j s hs; omega
-  · intro j s' hj; obtain ⟨s, hs, _, _, h3⟩ := hscn j s' hj; rw [hel, h3]; exact elOk j s hs
+  · intro j s' hj; obtain ⟨s, hs, _, _, h3, _⟩ := hscn j s' hj; have := elLt j s hs; omega
+  · intro j s' hj; obtain ⟨s, hs, _, _, h3, _⟩ := hscn j s' hj; rw [hel, h3]; exact elOk j s hs
   · rw [hp0]; exact basePts
   · rw [he0]; exact baseEqs
   · rw [hel]; exact baseEl
+  · intro j s' hj; obtain ⟨s, hs, _, _, _, h4, h5⟩ := hscn j s' hj; rw [h4, h5]; exact noShare j s hs
 
 /-- The invariant is preserved by every operation (given that clones own their points table). -/
-theorem inv_step (c : Cfg) (hc : c.cloneOwnsPoints = true) (b : Base) (st : State) (op : Op)
+theorem inv_step (c : Cfg) (hc : c.cloneOwnsPoints = true) (hmo : c.mergeOwnsDict = true) (b : Base) (st : State) (op : Op)
     (h : Inv b st) : Inv b (step c b st op) := by
-  obtain ⟨nextPos, refLt, refInj, ptsOwn, elLt, elOk, basePts, baseEqs, baseEl⟩ := h
+  obtain ⟨nextPos, refLt, refInj, ptsOwn, elLt, elOk, basePts, baseEqs, baseEl, noShare⟩ := h
   cases op with
   | regMgr m bc bp =>
       simp only [step]; split
-      · exact ⟨nextPos, refLt, refInj, ptsOwn, elLt, elOk, basePts, baseEqs, baseEl⟩
-      · exact ⟨nextPos, refLt, refInj, ptsOwn, elLt, elOk, basePts, baseEqs, baseEl⟩
+      · exact ⟨nextPos, refLt, refInj, ptsOwn, elLt, elOk, basePts, baseEqs, baseEl, noShare⟩
+      · exact ⟨nextPos, refLt, refInj, ptsOwn, elLt, elOk, basePts, baseEqs, baseEl, noShare⟩
   | add i m d =>
       simp only [step]; split
-      · exact ⟨nextPos, refLt, refInj, ptsOwn, elLt, elOk, basePts, baseEqs, baseEl⟩
+      · exact ⟨nextPos, refLt, refInj, ptsOwn, elLt, elOk, basePts, baseEqs, baseEl, noShare⟩
       · have hne : (0 : Nat) ≠ st.next := by omega
         constructor <;> dsimp only
         · omega
@@ -108,66 +111,75 @@ theorem inv_step (c : Cfg) (hc : c.cloneOwnsPoints = true) (b : Base) (st : Stat
         · simp [updFn, hne, basePts]
         · simp [updFn, hne, baseEqs]
         · simp [updFn, hne, baseEl]
+        · intro j s hj
+          simp only [updFn] at hj
+          split at hj
+          · cases hj; simp [hmo]
+          · exact noShare j s hj
   | run i =>
       cases hs : st.scns i with
-      | none => simpa [step, hs] using (⟨nextPos, refLt, refInj, ptsOwn, elLt, elOk, basePts, baseEqs, baseEl⟩ : Inv b st)
+      | none => simpa [step, hs] using (⟨nextPos, refLt, refInj, ptsOwn, elLt, elOk, basePts, baseEqs, baseEl, noShare⟩ : Inv b st)
       | some s =>
           have := refLt _ s hs; have := ptsOwn _ s hs
           simp only [step, hs]
-          apply inv_frame b st _ ⟨nextPos, refLt, refInj, ptsOwn, elLt, elOk, basePts, baseEqs, baseEl⟩
+          apply inv_frame b st _ ⟨nextPos, refLt, refInj, ptsOwn, elLt, elOk, basePts, baseEqs, baseEl, noShare⟩
           · rfl
           · intro j s' hj
             simp only [simulate, applyScn, updFn] at hj
             split at hj
-            · cases hj; subst_vars; exact ⟨s, hs, rfl, rfl, rfl⟩
-            · exact ⟨s', hj, rfl, rfl, rfl⟩
+            · cases hj; subst_vars; exact ⟨s, hs, rfl, rfl, rfl, rfl, rfl⟩
+            · exact ⟨s', hj, rfl, rfl, rfl, rfl, rfl⟩
           · rfl
           · simp only [simulate, applyScn, updFn]; rw [if_neg (by omega)]
           · simp only [simulate, applyScn, updFn]; rw [if_neg (by omega)]
   | configure i d =>
       cases hs : st.scns i with
-      | none => simpa [step, hs] using (⟨nextPos, refLt, refInj, ptsOwn, elLt, elOk, basePts, baseEqs, baseEl⟩ : Inv b st)
+      | none => simpa [step, hs] using (⟨nextPos, refLt, refInj, ptsOwn, elLt, elOk, basePts, baseEqs, baseEl, noShare⟩ : Inv b st)
       | some s =>
-          simp only [step, hs]
-          apply inv_frame b st _ ⟨nextPos, refLt, refInj, ptsOwn, elLt, elOk, basePts, baseEqs, baseEl⟩
+          have hns := noShare i s hs
+          have hcfg : configureScn st i s d = { st with scns := updFn st.scns i (some { s with
+              consts := Store.update s.consts d.consts, pts := Store.update s.pts d.pts, rs := s.rs.override d }) } := by
+            simp [configureScn, hns.1, hns.2]
+          simp only [step, hs, hcfg]
+          apply inv_frame b st _ ⟨nextPos, refLt, refInj, ptsOwn, elLt, elOk, basePts, baseEqs, baseEl, noShare⟩
           · rfl
           · intro j s' hj
             simp only [updFn] at hj
             split at hj
-            · cases hj; subst_vars; exact ⟨s, hs, rfl, rfl, rfl⟩
-            · exact ⟨s', hj, rfl, rfl, rfl⟩
+            · cases hj; subst_vars; exact ⟨s, hs, rfl, rfl, rfl, rfl, rfl⟩
+            · exact ⟨s', hj, rfl, rfl, rfl, rfl, rfl⟩
           · rfl
           · rfl
           · rfl
   | reset i =>
       cases hs : st.scns i with
-      | none => simpa [step, hs] using (⟨nextPos, refLt, refInj, ptsOwn, elLt, elOk, basePts, baseEqs, baseEl⟩ : Inv b st)
+      | none => simpa [step, hs] using (⟨nextPos, refLt, refInj, ptsOwn, elLt, elOk, basePts, baseEqs, baseEl, noShare⟩ : Inv b st)
       | some s =>
           simp only [step, hs]
-          apply inv_frame b st _ ⟨nextPos, refLt, refInj, ptsOwn, elLt, elOk, basePts, baseEqs, baseEl⟩
+          apply inv_frame b st _ ⟨nextPos, refLt, refInj, ptsOwn, elLt, elOk, basePts, baseEqs, baseEl, noShare⟩
           · rfl
           · intro j s' hj
             simp only [updFn] at hj
             split at hj
-            · cases hj; subst_vars; exact ⟨s, hs, rfl, rfl, rfl⟩
-            · exact ⟨s', hj, rfl, rfl, rfl⟩
+            · cases hj; subst_vars; exact ⟨s, hs, rfl, rfl, rfl, rfl, rfl⟩
+            · exact ⟨s', hj, rfl, rfl, rfl, rfl, rfl⟩
           · rfl
           · rfl
           · rfl
   | step i d t =>
       cases hs : st.scns i with
-      | none => simpa [step, hs] using (⟨nextPos, refLt, refInj, ptsOwn, elLt, elOk, basePts, baseEqs, baseEl⟩ : Inv b st)
+      | none => simpa [step, hs] using (⟨nextPos, refLt, refInj, ptsOwn, elLt, elOk, basePts, baseEqs, baseEl, noShare⟩ : Inv b st)
       | some s =>
           have := refLt _ s hs; have := ptsOwn _ s hs
           simp only [step, hs]
-          apply inv_frame b st _ ⟨nextPos, refLt, refInj, ptsOwn, elLt, elOk, basePts, baseEqs, baseEl⟩
+          apply inv_frame b st _ ⟨nextPos, refLt, refInj, ptsOwn, elLt, elOk, basePts, baseEqs, baseEl, noShare⟩
           · cases s.live <;> rfl
           · intro j s' hj
             cases hl : s.live <;> simp only [hl, simulate, applyScn, updFn] at hj <;> split at hj
-            · cases hj; subst_vars; exact ⟨s, hs, rfl, rfl, rfl⟩
-            · exact ⟨s', hj, rfl, rfl, rfl⟩
-            · cases hj; subst_vars; exact ⟨s, hs, rfl, rfl, rfl⟩
-            · exact ⟨s', hj, rfl, rfl, rfl⟩
+            · cases hj; subst_vars; exact ⟨s, hs, rfl, rfl, rfl, rfl, rfl⟩
+            · exact ⟨s', hj, rfl, rfl, rfl, rfl, rfl⟩
+            · cases hj; subst_vars; exact ⟨s, hs, rfl, rfl, rfl, rfl, rfl⟩
+            · exact ⟨s', hj, rfl, rfl, rfl, rfl, rfl⟩
           · cases s.live <;> rfl
           · have h0 : (0 : Nat) ≠ s.ptsRef := by omega
             cases hl : s.live <;> simp [simulate, applyScn, updFn, h0, hl]
@@ -175,21 +187,22 @@ theorem inv_step (c : Cfg) (hc : c.cloneOwnsPoints = true) (b : Base) (st : Stat
             cases hl : s.live <;> simp [simulate, applyScn, updFn, h0, hl]
   | evalBase =>
       simp only [step]
-      apply inv_frame b st _ ⟨nextPos, refLt, refInj, ptsOwn, elLt, elOk, basePts, baseEqs, baseEl⟩
+      apply inv_frame b st _ ⟨nextPos, refLt, refInj, ptsOwn, elLt, elOk, basePts, baseEqs, baseEl, noShare⟩
       · rfl
       · exact same_self st
       · rfl
       · rfl
       · rfl
 
-theorem deref_frame (st st' : State) (s : Scn) (h1 : st'.he s.ref = st.he s.ref)
+theorem deref_frame (st st' : State) (s : Scn) (hns : s.cShared = false ∧ s.pShared = false)
+    (h1 : st'.he s.ref = st.he s.ref)
     (h2 : st'.hp s.ptsRef = st.hp s.ptsRef) (h3 : st'.hm s.ref = st.hm s.ref)
     (h4 : st'.hel s.elRef = st.hel s.elRef) : deref st' s = deref st s := by
-  simp [deref, *]
+  simp [deref, scnConsts, scnPts, hns.1, hns.2, *]
 
 /-- Every operation acts on slot `i`'s view exactly as on the scenario alone (and not at all when it
 is addressed to another slot or to the base model). -/
-theorem rel_step (c : Cfg) (hc : c.cloneOwnsPoints = true) (b : Base) (st : State) (i : Nat) (ss : SoloSt)
+theorem rel_step (c : Cfg) (hc : c.cloneOwnsPoints = true) (hmo : c.mergeOwnsDict = true) (b : Base) (st : State) (i : Nat) (ss : SoloSt)
     (op : Op) (hI : Inv b st) (hR : Rel st i ss) : Rel (step c b st op) i (soloStep b i ss op) := by
   obtain ⟨hm, hv⟩ := hR
   cases op with
@@ -197,7 +210,16 @@ theorem rel_step (c : Cfg) (hc : c.cloneOwnsPoints = true) (b : Base) (st : Stat
       simp only [step, soloStep, ← hm]
       cases st.mgrs m with
       | some _ => exact ⟨hm, hv⟩
-      | none => exact ⟨rfl, hv⟩
+      | none =>
+          refine ⟨rfl, ?_⟩
+          rw [← hv]
+          simp only [view]
+          cases hs : st.scns i with
+          | none => rfl
+          | some s =>
+              simp only [Option.map]
+              congr 1
+              exact deref_frame _ _ _ (hI.noShare _ _ hs) rfl rfl rfl rfl
   | add j m d =>
       simp only [step, soloStep, ← hm]
       cases hmm : st.mgrs m with
@@ -211,7 +233,7 @@ theorem rel_step (c : Cfg) (hc : c.cloneOwnsPoints = true) (b : Base) (st : Stat
             refine ⟨rfl, ?_⟩
             have hne : (0 : Nat) ≠ st.next := by have := hI.nextPos; omega
             have hbe := hI.baseEl
-            simp [view, deref, updFn, Solo.fresh, hc, hI.basePts, hI.baseEl, hne]
+            simp [view, deref, updFn, Solo.fresh, hc, hmo, hI.basePts, hI.baseEl, hne, scnConsts, scnPts]
             split <;> simp_all
           · rw [if_neg hji]
             refine ⟨hm, ?_⟩
@@ -223,7 +245,7 @@ theorem rel_step (c : Cfg) (hc : c.cloneOwnsPoints = true) (b : Base) (st : Stat
                 have h1 := hI.refLt i s hs; have h2 := hI.ptsOwn i s hs; have h3 := hI.elLt i s hs
                 simp only [Option.map]
                 congr 1
-                apply deref_frame <;> simp only [updFn] <;> rw [if_neg (by omega)]
+                apply deref_frame _ _ _ (hI.noShare _ _ (by assumption)) <;> simp only [updFn] <;> rw [if_neg (by omega)]
   | run j =>
       simp only [step, soloStep]
       cases hs : st.scns j with
@@ -239,7 +261,7 @@ theorem rel_step (c : Cfg) (hc : c.cloneOwnsPoints = true) (b : Base) (st : Stat
           by_cases hji : j = i
           · subst hji; rw [if_pos rfl]; refine ⟨hm, ?_⟩
             simp only [view, hs, Option.map] at hv
-            simp [view, ← hv, deref, simulate, applyScn, updFn, Solo.run, Solo.apply, Solo.simulate, Solo.eff, effOf]
+            simp [view, ← hv, deref, simulate, applyScn, updFn, Solo.run, Solo.apply, Solo.simulate, Solo.eff, effOf, scnConsts, scnPts, mgrConsts, mgrPts]
           · rw [if_neg hji]; refine ⟨hm, ?_⟩
             rw [← hv]
             simp only [view, simulate, applyScn, updFn, if_neg (Ne.symm hji)]
@@ -251,7 +273,7 @@ theorem rel_step (c : Cfg) (hc : c.cloneOwnsPoints = true) (b : Base) (st : Stat
                 have hne : si.ref ≠ s.ref := fun h => hji (h1 h).symm
                 simp only [Option.map]
                 congr 1
-                apply deref_frame <;> simp only [updFn] <;> try (first | rfl | rw [if_neg (by omega)])
+                apply deref_frame _ _ _ (hI.noShare _ _ (by assumption)) <;> simp only [updFn] <;> try (first | rfl | rw [if_neg (by omega)])
   | configure j d =>
       simp only [step, soloStep]
       cases hs : st.scns j with
@@ -263,22 +285,21 @@ theorem rel_step (c : Cfg) (hc : c.cloneOwnsPoints = true) (b : Base) (st : Stat
             simp [view, hs, ← hv]
           · rw [if_neg hji]; exact ⟨hm, hv⟩
       | some s =>
-          simp only []
+          have hns := hI.noShare j s hs
+          have hcfg : configureScn st j s d = { st with scns := updFn st.scns j (some { s with
+              consts := Store.update s.consts d.consts, pts := Store.update s.pts d.pts, rs := s.rs.override d }) } := by
+            simp [configureScn, hns.1, hns.2]
+          simp only [hcfg]
           by_cases hji : j = i
           · subst hji; rw [if_pos rfl]; refine ⟨hm, ?_⟩
             simp only [view, hs, Option.map] at hv
-            simp [view, ← hv, deref, updFn, Solo.configure]
+            simp [view, ← hv, deref, updFn, Solo.configure, scnConsts, scnPts, hns.1, hns.2]
           · rw [if_neg hji]; refine ⟨hm, ?_⟩
             rw [← hv]
             simp only [view, updFn, if_neg (Ne.symm hji)]
             cases hsi : st.scns i with
             | none => rfl
-            | some si =>
-                have h1 := hI.refInj i j si s hsi hs
-                have h2 := hI.ptsOwn i si hsi; have h3 := hI.ptsOwn j s hs
-                have hne : si.ref ≠ s.ref := fun h => hji (h1 h).symm
-                simp only [Option.map]
-                rfl
+            | some si => rfl
   | reset j =>
       simp only [step, soloStep]
       cases hs : st.scns j with
@@ -294,7 +315,7 @@ theorem rel_step (c : Cfg) (hc : c.cloneOwnsPoints = true) (b : Base) (st : Stat
           by_cases hji : j = i
           · subst hji; rw [if_pos rfl]; refine ⟨hm, ?_⟩
             simp only [view, hs, Option.map] at hv
-            simp [view, ← hv, deref, updFn, Solo.reset]
+            simp [view, ← hv, deref, updFn, Solo.reset, scnConsts, scnPts, mgrConsts, mgrPts]
           · rw [if_neg hji]; refine ⟨hm, ?_⟩
             rw [← hv]
             simp only [view, updFn, if_neg (Ne.symm hji)]
@@ -306,7 +327,7 @@ theorem rel_step (c : Cfg) (hc : c.cloneOwnsPoints = true) (b : Base) (st : Stat
                 have hne : si.ref ≠ s.ref := fun h => hji (h1 h).symm
                 simp only [Option.map]
                 congr 1
-                apply deref_frame <;> simp only [updFn] <;> try (first | rfl | rw [if_neg (by omega)])
+                apply deref_frame _ _ _ (hI.noShare _ _ (by assumption)) <;> simp only [updFn] <;> try (first | rfl | rw [if_neg (by omega)])
   | step j d t =>
       simp only [step, soloStep]
       cases hs : st.scns j with
@@ -325,10 +346,10 @@ theorem rel_step (c : Cfg) (hc : c.cloneOwnsPoints = true) (b : Base) (st : Stat
             cases hl : s.live
             · refine ⟨hm, ?_⟩
               simp [view, ← hv, deref, simulate, applyScn, updFn, Solo.step, Solo.prepare, Solo.stepSet,
-                Solo.apply, Solo.simulate, Solo.eff, effOf, hl]
+                Solo.apply, Solo.simulate, Solo.eff, effOf, hl, scnConsts, scnPts, mgrConsts, mgrPts]
             · refine ⟨hm, ?_⟩
               simp [view, ← hv, deref, simulate, updFn, Solo.step, Solo.prepare, Solo.stepSet,
-                Solo.apply, Solo.simulate, Solo.eff, effOf, hl]
+                Solo.apply, Solo.simulate, Solo.eff, effOf, hl, scnConsts, scnPts, mgrConsts, mgrPts]
           · rw [if_neg hji]
             cases hsi : st.scns i with
             | none =>
@@ -342,9 +363,9 @@ theorem rel_step (c : Cfg) (hc : c.cloneOwnsPoints = true) (b : Base) (st : Stat
                 have hne2 : si.ptsRef ≠ s.ptsRef := by omega
                 cases hl : s.live
                 · refine ⟨hm, ?_⟩; rw [← hv]
-                  simp [view, deref, simulate, applyScn, updFn, Ne.symm hji, hsi, hne, hne2]
+                  simp [view, deref, simulate, applyScn, updFn, Ne.symm hji, hsi, hne, hne2, scnConsts, scnPts, mgrConsts, mgrPts]
                 · refine ⟨hm, ?_⟩; rw [← hv]
-                  simp [view, deref, simulate, applyScn, updFn, Ne.symm hji, hsi, hne, hne2]
+                  simp [view, deref, simulate, applyScn, updFn, Ne.symm hji, hsi, hne, hne2, scnConsts, scnPts, mgrConsts, mgrPts]
   | evalBase =>
       simp only [step, soloStep]
       refine ⟨hm, ?_⟩
@@ -356,19 +377,20 @@ theorem rel_step (c : Cfg) (hc : c.cloneOwnsPoints = true) (b : Base) (st : Stat
           have h1 := hI.refLt i si hsi
           simp only [Option.map]
           congr 1
-          apply deref_frame <;> simp only [updFn] <;> try (first | rfl | rw [if_neg (by omega)])
+          apply deref_frame _ _ _ (hI.noShare _ _ (by assumption)) <;> simp only [updFn] <;> try (first | rfl | rw [if_neg (by omega)])
 
-theorem run_rel (c : Cfg) (hc : c.cloneOwnsPoints = true) (b : Base) (i : Nat) (ops : List Op) :
+theorem run_rel (c : Cfg) (hc : c.cloneOwnsPoints = true) (hmo : c.mergeOwnsDict = true) (b : Base) (i : Nat) (ops : List Op) :
     ∀ (st : State) (ss : SoloSt), Inv b st → Rel st i ss →
       Inv b (ops.foldl (step c b) st) ∧ Rel (ops.foldl (step c b) st) i (ops.foldl (soloStep b i) ss) := by
   induction ops with
   | nil => intro st ss h1 h2; exact ⟨h1, h2⟩
   | cons op rest ih =>
       intro st ss h1 h2
-      exact ih _ _ (inv_step c hc b st op h1) (rel_step c hc b st i ss op h1 h2)
+      exact ih _ _ (inv_step c hc hmo b st op h1) (rel_step c hc hmo b st i ss op h1 h2)
 
-theorem inv_run (c : Cfg) (hc : c.cloneOwnsPoints = true) (b : Base) (ops : List Op) : Inv b (exec c b ops) :=
-  (run_rel c hc b 0 ops _ _ (inv_init b) (rel_init b 0)).1
+theorem inv_run (c : Cfg) (hc : c.cloneOwnsPoints = true) (hmo : c.mergeOwnsDict = true) (b : Base) (ops : List Op) :
+    Inv b (exec c b ops) :=
+  (run_rel c hc hmo b 0 ops _ _ (inv_init b) (rel_init b 0)).1
 
 /-- does the operation concern slot `i` (manager registrations concern every slot: base values apply
 to every scenario of the manager) -/
@@ -414,7 +436,7 @@ theorem hm0_step (c : Cfg) (b : Base) (st : State) (op : Op) (h : Inv b st) :
       simp only [step, isEvalBase]
       cases hs : st.scns i with
       | none => rfl
-      | some s => rfl
+      | some s => simp only [configureScn]; split <;> rfl
   | reset i =>
       simp only [step, isEvalBase]
       cases hs : st.scns i with
@@ -431,14 +453,14 @@ theorem hm0_step (c : Cfg) (b : Base) (st : State) (op : Op) (h : Inv b st) :
   | evalBase =>
       simp [step, isEvalBase, updFn, baseEff, Base.eff, h.basePts, h.baseEqs, h.baseEl]
 
-theorem run_base (c : Cfg) (hc : c.cloneOwnsPoints = true) (b : Base) (ops : List Op) :
+theorem run_base (c : Cfg) (hc : c.cloneOwnsPoints = true) (hmo : c.mergeOwnsDict = true) (b : Base) (ops : List Op) :
     ∀ (st : State), Inv b st →
       (ops.foldl (step c b) st).hm 0 = st.hm 0 ++ (ops.filter isEvalBase).map (fun _ => (b.eff, none)) := by
   induction ops with
   | nil => intro st _; simp
   | cons op rest ih =>
       intro st h
-      rw [List.foldl_cons, ih _ (inv_step c hc b st op h), hm0_step c b st op h]
+      rw [List.foldl_cons, ih _ (inv_step c hc hmo b st op h), hm0_step c b st op h]
       cases hop : isEvalBase op <;> simp [List.filter, hop]
 
 /-! ### The property -/
@@ -454,31 +476,32 @@ def C06_full (c : Cfg) : Prop :=
     (∀ i, view (exec c b ops) i = (soloExec b i (ops.filter (relevant i))).s) ∧
     baseView b (exec c b ops) = baseAlone b ops
 
-theorem C06_full_of_good (c : Cfg) (hc : c.cloneOwnsPoints = true) : C06_full c := by
+theorem C06_full_of_good (c : Cfg) (hc : c.cloneOwnsPoints = true) (hmo : c.mergeOwnsDict = true) : C06_full c := by
   intro b ops
   constructor
   · intro i
-    have h := (run_rel c hc b i ops _ _ (inv_init b) (rel_init b i)).2.scn
+    have h := (run_rel c hc hmo b i ops _ _ (inv_init b) (rel_init b i)).2.scn
     rw [soloExec, ← solo_filter]
     exact h
-  · have hI := inv_run c hc b ops
-    have hm := run_base c hc b ops _ (inv_init b)
+  · have hI := inv_run c hc hmo b ops
+    have hm := run_base c hc hmo b ops _ (inv_init b)
     simp only [baseView, baseAlone, baseEff, Base.eff]
     rw [show (exec c b ops).hm 0 = _ from hm]
     simp [hI.basePts, hI.baseEqs, hI.baseEl, State.init, Base.eff]
 
 /-- Results are a function of what a read sees, so they agree as well — whatever the numeric
 simulation `Sim` is. -/
-theorem C06_results {R : Type} (Sim : Solo → R) (c : Cfg) (hc : c.cloneOwnsPoints = true) (b : Base)
+theorem C06_results {R : Type} (Sim : Solo → R) (c : Cfg) (hc : c.cloneOwnsPoints = true)
+    (hmo : c.mergeOwnsDict = true) (b : Base)
     (ops : List Op) (i : Nat) :
     (view (exec c b ops) i).map Sim = ((soloExec b i (ops.filter (relevant i))).s).map Sim := by
-  rw [(C06_full_of_good c hc b ops).1 i]
+  rw [(C06_full_of_good c hc hmo b ops).1 i]
 
 /-- What holds whatever `_elements` sharing is: no operation of the alphabet writes an arrayed-element
 table, so sharing it between clones does not break isolation. -/
-theorem C06_partial (c : Cfg) (hc : c.cloneOwnsPoints = true) :
+theorem C06_partial (c : Cfg) (hc : c.cloneOwnsPoints = true) (hmo : c.mergeOwnsDict = true) :
     C06_full { c with cloneOwnsElements := false } ∧ C06_full { c with cloneOwnsElements := true } :=
-  ⟨C06_full_of_good _ hc, C06_full_of_good _ hc⟩
+  ⟨C06_full_of_good _ hc hmo, C06_full_of_good _ hc hmo⟩
 
 def witnessBase : Base := { pts := [(0, 1)], rs := { start := 0, stop := 4, dt := 1 }, elems := 9 }
 def noDict : Dict := { consts := [], pts := [], start := none, stop := none, dt := none }
@@ -492,21 +515,579 @@ although nothing was ever set on scenario 1 (and the base model reads 7 as well)
 theorem C06_witness_shared_points (c : Cfg) (hc : c.cloneOwnsPoints = false) : ¬ C06_full c := by
   intro h
   have h1 := (h witnessBase witnessOps).1 1
-  obtain ⟨p, e⟩ := c
+  obtain ⟨p, e, m⟩ := c
   simp only at hc; subst hc
   revert h1
-  cases e <;> decide
+  cases e <;> cases m <;> decide
 
 theorem C06_witness_base (c : Cfg) (hc : c.cloneOwnsPoints = false) :
     baseView witnessBase (exec c witnessBase witnessOps) ≠ baseAlone witnessBase witnessOps := by
-  obtain ⟨p, e⟩ := c
+  obtain ⟨p, e, m⟩ := c
   simp only at hc; subst hc
-  cases e <;> decide
+  cases e <;> cases m <;> decide
+
+/-- register a manager WITH base constants, add scenarios 0 and 1 without own constants, re-parameterise
+scenario 0 (session / REST settings), run scenario 1. -/
+def witnessMergeOps : List Op :=
+  [.regMgr 0 [(5, 50)] [], .add 0 0 noDict, .add 1 0 noDict, .configure 0 { noDict with consts := [(5, 51)] }, .run 1]
+
+/-- same, but scenario 1 is registered only AFTER scenario 0 was re-parameterised. -/
+def witnessLateOps : List Op :=
+  [.regMgr 0 [(5, 50)] [(1, 11)], .add 0 0 noDict, .configure 0 { noDict with consts := [(5, 51)], pts := [(1, 12)] },
+   .add 1 0 noDict]
+
+/-- Negation witness for the shared base dictionary (`mergeOwnsDict = false`): scenario 1 runs with constant
+5 ↦ 51 although only scenario 0 was re-parameterised — whatever the two clone facts are. -/
+theorem C06_witness_shared_base_dict (c : Cfg) (hm : c.mergeOwnsDict = false) : ¬ C06_full c := by
+  intro h
+  have h1 := (h witnessBase witnessMergeOps).1 1
+  obtain ⟨p, e, m⟩ := c
+  simp only at hm; subst hm
+  revert h1
+  cases p <;> cases e <;> decide
+
+/-- the same mechanism reaches scenarios registered later: their merge reads the manager's (rewritten) base
+dictionaries, constants and points alike. -/
+theorem C06_witness_late_registration (c : Cfg) (hm : c.mergeOwnsDict = false) :
+    view (exec c witnessBase witnessLateOps) 1 ≠ (soloExec witnessBase 1 (witnessLateOps.filter (relevant 1))).s := by
+  obtain ⟨p, e, m⟩ := c
+  simp only at hm; subst hm
+  cases p <;> cases e <;> decide
+
+/-! ### Wave 2 — what holds under the defective mechanisms
+
+`Lock`: two runs of the machine on the same history under configurations that differ only in
+`cloneOwnsPoints` stay in lockstep on everything except the points cells (`hp`, `ptsRef`, the `pts` component of
+memo generations).  Hence (a) everything but the points table is isolated even under an aliased points table
+(`C06_partial_consts`), and (b) on histories in which no operation carries points the aliased machine is
+indistinguishable from the good one (`PF` invariant: every reachable points cell still holds the base model's
+table), hence fully isolated (`C06_partial_nopoints`). -/
+
+theorem Store.update_nil (s : Store) : Store.update s [] = s := rfl
+
+theorem updFn_self {α : Type} (f : Nat → α) (k : Nat) : updFn f k (f k) = f := by
+  funext x; simp only [updFn]; split
+  · subst_vars; rfl
+  · rfl
+
+def Eff.noPts (e : Eff) : Eff := { e with pts := [] }
+def eraseEntry (e : MemoEntry) : MemoEntry := (e.1.noPts, e.2)
+/-- a view without what depends on the points table -/
+def Solo.erase (s : Solo) : Solo := { s with mpts := [], memo := s.memo.map eraseEntry }
+def BaseView.erase (v : BaseView) : BaseView := { eff := v.eff.noPts, memo := v.memo.map eraseEntry }
+def Scn.noP (s : Scn) : Scn := { s with ptsRef := 0 }
+
+structure Lock (st st' : State) : Prop where
+  mgrs : st.mgrs = st'.mgrs
+  next : st.next = st'.next
+  he : st.he = st'.he
+  hel : st.hel = st'.hel
+  scns : ∀ i, (st.scns i).map Scn.noP = (st'.scns i).map Scn.noP
+  hm : ∀ r, (st.hm r).map eraseEntry = (st'.hm r).map eraseEntry
+
+theorem lock_refl (st : State) : Lock st st := ⟨rfl, rfl, rfl, rfl, fun _ => rfl, fun _ => rfl⟩
+
+theorem noP_cases (a a' : Option Scn) (h : a.map Scn.noP = a'.map Scn.noP) :
+    (a = none ∧ a' = none) ∨ ∃ s p', a = some s ∧ a' = some { s with ptsRef := p' } := by
+  cases a with
+  | none =>
+      cases a' with
+      | none => exact Or.inl ⟨rfl, rfl⟩
+      | some s' => simp at h
+  | some s =>
+      cases a' with
+      | none => simp at h
+      | some s' =>
+          refine Or.inr ⟨s, s'.ptsRef, rfl, ?_⟩
+          cases s; cases s'
+          simp [Scn.noP] at h
+          simp [h]
+
+theorem lock_step (c c' : Cfg) (h1 : c.cloneOwnsElements = c'.cloneOwnsElements)
+    (h2 : c.mergeOwnsDict = c'.mergeOwnsDict) (b : Base) (st st' : State) (op : Op) (hL : Lock st st') :
+    Lock (step c b st op) (step c' b st' op) := by
+  obtain ⟨mgrs, scns, hp, he, hm, hel, next⟩ := st
+  obtain ⟨mgrs', scns', hp', he', hm', hel', next'⟩ := st'
+  obtain ⟨e1, e2, e3, e4, hS, hM⟩ := hL
+  simp only at e1 e2 e3 e4 hS hM
+  subst e1 e2 e3 e4
+  cases op with
+  | regMgr m bc bp =>
+      simp only [step]
+      cases mgrs m <;> exact ⟨rfl, rfl, rfl, rfl, hS, hM⟩
+  | add i m d =>
+      simp only [step]
+      cases hmm : mgrs m with
+      | none => exact ⟨rfl, rfl, rfl, rfl, hS, hM⟩
+      | some p =>
+          obtain ⟨bc, bp⟩ := p
+          refine ⟨rfl, rfl, rfl, rfl, ?_, ?_⟩
+          · intro k; simp only [updFn]; split
+            · simp [Scn.noP, h1, h2]
+            · exact hS k
+          · intro r; simp only [updFn]; split
+            · rfl
+            · exact hM r
+  | run i =>
+      rcases noP_cases _ _ (hS i) with ⟨h, h'⟩ | ⟨s, p', h, h'⟩
+      · simp only [step, h, h']; exact ⟨rfl, rfl, rfl, rfl, hS, hM⟩
+      · simp only [step, h, h', applyScn, simulate]
+        refine ⟨rfl, rfl, ?_, rfl, ?_, ?_⟩
+        · simp [scnConsts, mgrConsts]
+        · intro k; simp only [updFn]; split
+          · simp [Scn.noP]
+          · exact hS k
+        · intro r; simp only [updFn]; split
+          · simp [hM, eraseEntry, Eff.noPts, effOf, scnConsts, mgrConsts, updFn]
+          · exact hM r
+  | configure i d =>
+      rcases noP_cases _ _ (hS i) with ⟨h, h'⟩ | ⟨s, p', h, h'⟩
+      · simp only [step, h, h']; exact ⟨rfl, rfl, rfl, rfl, hS, hM⟩
+      · simp only [step, h, h', configureScn]
+        split
+        · refine ⟨rfl, rfl, rfl, rfl, ?_, hM⟩
+          intro k; simp only [updFn]; split
+          · simp [Scn.noP]
+          · exact hS k
+        · refine ⟨rfl, rfl, rfl, rfl, ?_, hM⟩
+          intro k; simp only [updFn]; split
+          · simp [Scn.noP]
+          · exact hS k
+  | reset i =>
+      rcases noP_cases _ _ (hS i) with ⟨h, h'⟩ | ⟨s, p', h, h'⟩
+      · simp only [step, h, h']; exact ⟨rfl, rfl, rfl, rfl, hS, hM⟩
+      · simp only [step, h, h']
+        refine ⟨rfl, rfl, rfl, rfl, ?_, ?_⟩
+        · intro k; simp only [updFn]; split
+          · simp [Scn.noP]
+          · exact hS k
+        · intro r; simp only [updFn]; split
+          · rfl
+          · exact hM r
+  | step i d t =>
+      rcases noP_cases _ _ (hS i) with ⟨h, h'⟩ | ⟨s, p', h, h'⟩
+      · simp only [step, h, h']; exact ⟨rfl, rfl, rfl, rfl, hS, hM⟩
+      · simp only [step, h, h']
+        cases hl : s.live
+        · simp only [applyScn, simulate, Bool.false_eq_true, if_false]
+          refine ⟨rfl, rfl, ?_, rfl, ?_, ?_⟩
+          · simp [scnConsts, mgrConsts]
+          · intro k; simp only [updFn]; split
+            · simp [Scn.noP]
+            · exact hS k
+          · intro r; simp only [updFn]; split
+            · simp [hM, eraseEntry, Eff.noPts, effOf, scnConsts, mgrConsts, updFn]
+            · exact hM r
+        · simp only [simulate, if_true]
+          refine ⟨rfl, rfl, rfl, rfl, ?_, ?_⟩
+          · intro k; simp only [updFn]; split
+            · simp [Scn.noP]
+            · exact hS k
+          · intro r; simp only [updFn]; split
+            · simp [hM, eraseEntry, Eff.noPts, effOf, updFn]
+            · exact hM r
+  | evalBase =>
+      simp only [step]
+      refine ⟨rfl, rfl, rfl, rfl, hS, ?_⟩
+      intro r; simp only [updFn]; split
+      · simp [hM, eraseEntry, Eff.noPts, baseEff]
+      · exact hM r
+
+theorem lock_run (c c' : Cfg) (h1 : c.cloneOwnsElements = c'.cloneOwnsElements)
+    (h2 : c.mergeOwnsDict = c'.mergeOwnsDict) (b : Base) (ops : List Op) :
+    ∀ st st', Lock st st' → Lock (ops.foldl (step c b) st) (ops.foldl (step c' b) st') := by
+  induction ops with
+  | nil => intro st st' h; exact h
+  | cons op rest ih => intro st st' h; exact ih _ _ (lock_step c c' h1 h2 b st st' op h)
+
+/-- in lockstep, the two machines show the same view of every slot up to the points table -/
+theorem view_erase_of_lock (st st' : State) (i : Nat) (hL : Lock st st') :
+    (view st i).map Solo.erase = (view st' i).map Solo.erase := by
+  obtain ⟨e1, e2, e3, e4, hS, hM⟩ := hL
+  rcases noP_cases _ _ (hS i) with ⟨h, h'⟩ | ⟨s, p', h, h'⟩
+  · simp [view, h, h']
+  · simp [view, h, h', deref, Solo.erase, scnConsts, scnPts, mgrConsts, mgrPts, e1, e3, e4, hM]
+
+theorem base_erase_of_lock (b : Base) (st st' : State) (hL : Lock st st') :
+    (baseView b st).erase = (baseView b st').erase := by
+  obtain ⟨e1, e2, e3, e4, hS, hM⟩ := hL
+  simp [baseView, BaseView.erase, baseEff, Eff.noPts, e3, e4, hM]
+
+/-- **`C06_partial` of the design, constants half** — whatever `get_cloned_model` does with the points table
+(aliased or copied): for every base model, every history and every slot, everything a view holds except the
+points table — scenario-level constants / points / run specs, the clone's equation overrides (`change_equation`
+rebinds per-clone `equations`), its run specs, live flag, and every memo generation up to its points component —
+equals that of the scenario alone; same for the base model. -/
+theorem C06_partial_consts (c : Cfg) (hmo : c.mergeOwnsDict = true) (b : Base) (ops : List Op) :
+    (∀ i, (view (exec c b ops) i).map Solo.erase = ((soloExec b i (ops.filter (relevant i))).s).map Solo.erase) ∧
+    (baseView b (exec c b ops)).erase = (baseAlone b ops).erase := by
+  have hL := lock_run c { c with cloneOwnsPoints := true } rfl rfl b ops _ _ (lock_refl (State.init b))
+  have hG := C06_full_of_good { c with cloneOwnsPoints := true } rfl hmo b ops
+  constructor
+  · intro i
+    rw [← hG.1 i]
+    exact view_erase_of_lock _ _ i hL
+  · rw [← hG.2]
+    exact base_erase_of_lock b _ _ hL
+
+/-- an operation that carries no graphical-function points -/
+def ptsFree : Op → Bool
+  | .regMgr _ _ bp => bp.isEmpty
+  | .add _ _ d => d.pts.isEmpty
+  | .configure _ d => d.pts.isEmpty
+  | .step _ d _ => d.pts.isEmpty
+  | _ => true
+
+/-- on points-free histories every reachable points cell holds the base model's table -/
+structure PF (b : Base) (st : State) : Prop where
+  base : st.hp 0 = b.pts
+  mgr : ∀ m p, st.mgrs m = some p → p.2 = []
+  scn : ∀ i s, st.scns i = some s → st.hp s.ptsRef = b.pts ∧ s.pts = [] ∧ s.cShared = false ∧ s.pShared = false
+  memo : ∀ r e, e ∈ st.hm r → e.1.pts = b.pts
+
+theorem pf_init (b : Base) : PF b (State.init b) := by
+  constructor <;> simp [State.init]
+
+theorem pf_step (c : Cfg) (hmo : c.mergeOwnsDict = true) (b : Base) (st : State) (op : Op)
+    (hop : ptsFree op = true) (h : PF b st) : PF b (step c b st op) := by
+  obtain ⟨hb, hmg, hsc, hme⟩ := h
+  cases op with
+  | regMgr m bc bp =>
+      simp only [ptsFree, List.isEmpty_iff] at hop
+      subst hop
+      simp only [step]
+      cases hmm : st.mgrs m with
+      | some _ => exact ⟨hb, hmg, hsc, hme⟩
+      | none =>
+          refine ⟨hb, ?_, hsc, hme⟩
+          intro m' p hp
+          simp only [updFn] at hp
+          split at hp
+          · cases hp; rfl
+          · exact hmg m' p hp
+  | add i m d =>
+      simp only [ptsFree, List.isEmpty_iff] at hop
+      simp only [step]
+      cases hmm : st.mgrs m with
+      | none => exact ⟨hb, hmg, hsc, hme⟩
+      | some p =>
+          obtain ⟨bc, bp⟩ := p
+          have hbp : bp = [] := hmg m _ hmm
+          subst hbp
+          have hfill : Store.fill d.pts [] = [] := by rw [hop]; rfl
+          simp only [hfill, List.isEmpty_nil, if_true, hmo]
+          refine ⟨?_, hmg, ?_, ?_⟩
+          · simp only [updFn]; split
+            · exact hb
+            · exact hb
+          · intro k s hk
+            simp only [updFn] at hk
+            split at hk
+            · cases hk
+              refine ⟨?_, rfl, by simp, by simp⟩
+              cases c.cloneOwnsPoints <;> simp [updFn, hb]
+            · obtain ⟨h1, h2, h3, h4⟩ := hsc k s hk
+              refine ⟨?_, h2, h3, h4⟩
+              simp only [updFn]; split
+              · exact hb
+              · exact h1
+          · intro r e he
+            simp only [updFn] at he
+            split at he
+            · simp at he
+            · exact hme r e he
+  | run i =>
+      simp only [step]
+      cases hs : st.scns i with
+      | none => exact ⟨hb, hmg, hsc, hme⟩
+      | some s =>
+          obtain ⟨h1, h2, h3, h4⟩ := hsc i s hs
+          have hp : scnPts st s = [] := by simp [scnPts, h4, h2]
+          simp only [applyScn, simulate, hp, Store.update_nil, updFn_self]
+          refine ⟨hb, hmg, ?_, ?_⟩
+          · intro k s' hk
+            simp only [updFn] at hk
+            split at hk
+            · cases hk; exact ⟨h1, h2, h3, h4⟩
+            · exact hsc k s' hk
+          · intro r e he
+            simp only [updFn] at he
+            split at he
+            · rcases List.mem_append.mp he with he | he
+              · exact hme _ e he
+              · simp only [List.mem_singleton] at he; subst he; simpa [effOf] using h1
+            · exact hme r e he
+  | configure i d =>
+      simp only [ptsFree, List.isEmpty_iff] at hop
+      simp only [step]
+      cases hs : st.scns i with
+      | none => exact ⟨hb, hmg, hsc, hme⟩
+      | some s =>
+          obtain ⟨h1, h2, h3, h4⟩ := hsc i s hs
+          simp only [configureScn, h3, h4, Bool.or_self, Bool.false_eq_true, if_false, hop, h2, Store.update_nil]
+          refine ⟨hb, hmg, ?_, hme⟩
+          intro k s' hk
+          simp only [updFn] at hk
+          split at hk
+          · cases hk; exact ⟨h1, rfl, rfl, rfl⟩
+          · exact hsc k s' hk
+  | reset i =>
+      simp only [step]
+      cases hs : st.scns i with
+      | none => exact ⟨hb, hmg, hsc, hme⟩
+      | some s =>
+          obtain ⟨h1, h2, h3, h4⟩ := hsc i s hs
+          refine ⟨hb, hmg, ?_, ?_⟩
+          · intro k s' hk
+            simp only [updFn] at hk
+            split at hk
+            · cases hk; exact ⟨h1, h2, h3, h4⟩
+            · exact hsc k s' hk
+          · intro r e he
+            simp only [updFn] at he
+            split at he
+            · simp at he
+            · exact hme r e he
+  | step i d t =>
+      simp only [ptsFree, List.isEmpty_iff] at hop
+      simp only [step]
+      cases hs : st.scns i with
+      | none => exact ⟨hb, hmg, hsc, hme⟩
+      | some s =>
+          obtain ⟨h1, h2, h3, h4⟩ := hsc i s hs
+          have hp : scnPts st s = [] := by simp [scnPts, h4, h2]
+          cases hl : s.live
+          · simp only [hl, applyScn, simulate, hp, hop, Store.update_nil, updFn_self, Bool.false_eq_true, if_false]
+            refine ⟨hb, hmg, ?_, ?_⟩
+            · intro k s' hk
+              simp only [updFn] at hk
+              split at hk
+              · cases hk; exact ⟨h1, h2, h3, h4⟩
+              · exact hsc k s' hk
+            · intro r e he
+              simp only [updFn] at he
+              split at he
+              · rcases List.mem_append.mp he with he | he
+                · exact hme _ e he
+                · simp only [List.mem_singleton] at he; subst he; simpa [effOf] using h1
+              · exact hme r e he
+          · simp only [hl, simulate, hop, Store.update_nil, updFn_self, if_true]
+            refine ⟨hb, hmg, ?_, ?_⟩
+            · intro k s' hk
+              simp only [updFn] at hk
+              split at hk
+              · cases hk; exact ⟨h1, h2, h3, h4⟩
+              · exact hsc k s' hk
+            · intro r e he
+              simp only [updFn] at he
+              split at he
+              · rcases List.mem_append.mp he with he | he
+                · exact hme _ e he
+                · simp only [List.mem_singleton] at he; subst he; simpa [effOf] using h1
+              · exact hme r e he
+  | evalBase =>
+      simp only [step]
+      refine ⟨hb, hmg, hsc, ?_⟩
+      intro r e he
+      simp only [updFn] at he
+      split at he
+      · rcases List.mem_append.mp he with he | he
+        · exact hme _ e he
+        · simp only [List.mem_singleton] at he; subst he; simpa [baseEff] using hb
+      · exact hme r e he
+
+theorem pf_run (c : Cfg) (hmo : c.mergeOwnsDict = true) (b : Base) (ops : List Op)
+    (hpf : ∀ op ∈ ops, ptsFree op = true) : ∀ st, PF b st → PF b (ops.foldl (step c b) st) := by
+  induction ops with
+  | nil => intro st h; exact h
+  | cons op rest ih =>
+      intro st h
+      exact ih (fun o ho => hpf o (List.mem_cons_of_mem _ ho)) _
+        (pf_step c hmo b st op (hpf op List.mem_cons_self) h)
+
+theorem erase_inj (p : Store) : ∀ (l l' : List MemoEntry), l.map eraseEntry = l'.map eraseEntry →
+    (∀ e ∈ l, e.1.pts = p) → (∀ e ∈ l', e.1.pts = p) → l = l' := by
+  intro l
+  induction l with
+  | nil => intro l' h _ _; cases l' with
+    | nil => rfl
+    | cons a t => simp at h
+  | cons a t ih =>
+      intro l' h h1 h2
+      cases l' with
+      | nil => simp at h
+      | cons a' t' =>
+          simp only [List.map_cons, List.cons.injEq] at h
+          have ha : a = a' := by
+            have e1 := h1 a List.mem_cons_self
+            have e2 := h2 a' List.mem_cons_self
+            obtain ⟨⟨q1, q2, q3, q4⟩, q5⟩ := a
+            obtain ⟨⟨r1, r2, r3, r4⟩, r5⟩ := a'
+            simp [eraseEntry, Eff.noPts] at h
+            simp only at e1 e2
+            simp [h.1, e1, e2]
+          rw [ha, ih t' h.2 (fun e he => h1 e (List.mem_cons_of_mem _ he)) (fun e he => h2 e (List.mem_cons_of_mem _ he))]
+
+theorem view_of_lock_pf (b : Base) (st st' : State) (i : Nat) (hL : Lock st st') (h : PF b st) (h' : PF b st') :
+    view st i = view st' i := by
+  obtain ⟨e1, e2, e3, e4, hS, hM⟩ := hL
+  rcases noP_cases _ _ (hS i) with ⟨hn, hn'⟩ | ⟨s, p', hs, hs'⟩
+  · simp [view, hn, hn']
+  · have q := (h.scn i s hs).1
+    have q' := (h'.scn i _ hs').1
+    simp only at q'
+    have hmemo : st.hm s.ref = st'.hm s.ref :=
+      erase_inj b.pts _ _ (hM s.ref) (h.memo s.ref) (h'.memo s.ref)
+    simp [view, hs, hs', deref, scnConsts, scnPts, mgrConsts, mgrPts, e1, e3, e4, q, q', hmemo]
+
+/-- **`C06_partial` of the design, points half** — under an ALIASED points table (`cloneOwnsPoints` arbitrary,
+in particular false): on every history in which no operation carries points (no base points, no scenario points,
+no points in session / REST / step settings) the full isolation statement holds — every slot looks exactly like
+the scenario alone, the base model as if no scenario had been registered. -/
+theorem C06_partial_nopoints (c : Cfg) (hmo : c.mergeOwnsDict = true) (b : Base) (ops : List Op)
+    (hpf : ∀ op ∈ ops, ptsFree op = true) :
+    (∀ i, view (exec c b ops) i = (soloExec b i (ops.filter (relevant i))).s) ∧
+    baseView b (exec c b ops) = baseAlone b ops := by
+  have hL := lock_run c { c with cloneOwnsPoints := true } rfl rfl b ops _ _ (lock_refl (State.init b))
+  have hP := pf_run c hmo b ops hpf _ (pf_init b)
+  have hP' := pf_run { c with cloneOwnsPoints := true } hmo b ops hpf _ (pf_init b)
+  have hG := C06_full_of_good { c with cloneOwnsPoints := true } rfl hmo b ops
+  constructor
+  · intro i
+    rw [← hG.1 i]
+    exact view_of_lock_pf b _ _ i hL hP hP'
+  · rw [← hG.2]
+    have hm0 := erase_inj b.pts _ _ (hL.hm 0) (hP.memo 0) (hP'.memo 0)
+    simp only [baseView, baseEff, exec]
+    rw [hm0, hL.he, hL.hel, hP.base, hP'.base]
+
+/-- a manager registration without base constants and base points -/
+def baseFree : Op → Bool
+  | .regMgr _ bc bp => bc.isEmpty && bp.isEmpty
+  | _ => true
+
+structure NB (st : State) : Prop where
+  mgr : ∀ m p, st.mgrs m = some p → p = ([], [])
+  scn : ∀ i s, st.scns i = some s → s.cShared = false ∧ s.pShared = false
+
+theorem nb_step (c : Cfg) (b : Base) (st : State) (op : Op) (hop : baseFree op = true) (h : NB st) :
+    NB (step c b st op) ∧ step c b st op = step { c with mergeOwnsDict := true } b st op := by
+  obtain ⟨hmg, hsc⟩ := h
+  cases op with
+  | regMgr m bc bp =>
+      simp only [baseFree, Bool.and_eq_true, List.isEmpty_iff] at hop
+      obtain ⟨rfl, rfl⟩ := hop
+      refine ⟨?_, rfl⟩
+      simp only [step]
+      cases hmm : st.mgrs m with
+      | some _ => exact ⟨hmg, hsc⟩
+      | none =>
+          refine ⟨?_, hsc⟩
+          intro m' p hp
+          simp only [updFn] at hp
+          split at hp
+          · cases hp; rfl
+          · exact hmg m' p hp
+  | add i m d =>
+      simp only [step]
+      cases hmm : st.mgrs m with
+      | none => exact ⟨⟨hmg, hsc⟩, rfl⟩
+      | some p =>
+          have hp := hmg m p hmm
+          subst hp
+          simp only [List.isEmpty_nil, Bool.not_true, Bool.and_false]
+          refine ⟨⟨hmg, ?_⟩, trivial⟩
+          intro k s hk
+          simp only [updFn] at hk
+          split at hk
+          · cases hk; exact ⟨rfl, rfl⟩
+          · exact hsc k s hk
+  | run i =>
+      refine ⟨?_, rfl⟩
+      simp only [step]
+      cases hs : st.scns i with
+      | none => exact ⟨hmg, hsc⟩
+      | some s =>
+          refine ⟨hmg, ?_⟩
+          intro k s' hk
+          simp only [simulate, applyScn, updFn] at hk
+          split at hk
+          · cases hk; exact hsc i s hs
+          · exact hsc k s' hk
+  | configure i d =>
+      refine ⟨?_, rfl⟩
+      simp only [step]
+      cases hs : st.scns i with
+      | none => exact ⟨hmg, hsc⟩
+      | some s =>
+          obtain ⟨h3, h4⟩ := hsc i s hs
+          simp only [configureScn, h3, h4, Bool.or_self, Bool.false_eq_true, if_false]
+          refine ⟨hmg, ?_⟩
+          intro k s' hk
+          simp only [updFn] at hk
+          split at hk
+          · cases hk; exact ⟨rfl, rfl⟩
+          · exact hsc k s' hk
+  | reset i =>
+      refine ⟨?_, rfl⟩
+      simp only [step]
+      cases hs : st.scns i with
+      | none => exact ⟨hmg, hsc⟩
+      | some s =>
+          refine ⟨hmg, ?_⟩
+          intro k s' hk
+          simp only [updFn] at hk
+          split at hk
+          · cases hk; exact hsc i s hs
+          · exact hsc k s' hk
+  | step i d t =>
+      refine ⟨?_, rfl⟩
+      simp only [step]
+      cases hs : st.scns i with
+      | none => exact ⟨hmg, hsc⟩
+      | some s =>
+          cases hl : s.live
+          · simp only [hl, Bool.false_eq_true, if_false, applyScn, simulate]
+            refine ⟨hmg, ?_⟩
+            intro k s' hk
+            simp only [updFn] at hk
+            split at hk
+            · cases hk; exact hsc i s hs
+            · exact hsc k s' hk
+          · simp only [hl, if_true, simulate]
+            refine ⟨hmg, ?_⟩
+            intro k s' hk
+            simp only [updFn] at hk
+            split at hk
+            · cases hk; exact hsc i s hs
+            · exact hsc k s' hk
+  | evalBase => exact ⟨⟨hmg, hsc⟩, rfl⟩
+
+theorem nb_run (c : Cfg) (b : Base) (ops : List Op) (hnb : ∀ op ∈ ops, baseFree op = true) :
+    ∀ st, NB st → ops.foldl (step c b) st = ops.foldl (step { c with mergeOwnsDict := true } b) st := by
+  induction ops with
+  | nil => intro st _; rfl
+  | cons op rest ih =>
+      intro st h
+      have hs := nb_step c b st op (hnb op List.mem_cons_self) h
+      rw [List.foldl_cons, List.foldl_cons, ← hs.2]
+      exact ih (fun o ho => hnb o (List.mem_cons_of_mem _ ho)) _ hs.1
+
+/-- What holds whatever the merge of base values does (`mergeOwnsDict` arbitrary): on histories whose managers
+carry no base constants / base points nothing is ever shared, and the full isolation statement holds. -/
+theorem C06_partial_nobase (c : Cfg) (hc : c.cloneOwnsPoints = true) (b : Base) (ops : List Op)
+    (hnb : ∀ op ∈ ops, baseFree op = true) :
+    (∀ i, view (exec c b ops) i = (soloExec b i (ops.filter (relevant i))).s) ∧
+    baseView b (exec c b ops) = baseAlone b ops := by
+  have he : exec c b ops = exec { c with mergeOwnsDict := true } b ops :=
+    nb_run c b ops hnb _ ⟨by simp [State.init], by simp [State.init]⟩
+  rw [he]
+  exact C06_full_of_good { c with mergeOwnsDict := true } hc rfl b ops
 
 /-- Non-vacuity: on a history using every operation kind, two managers with base constants / base
 points, three scenarios, the shared machine's view of slot 1 is a concrete non-trivial state. -/
 example :
-    (view (exec ⟨true, false⟩ witnessBase
+    (view (exec ⟨true, false, true⟩ witnessBase
       [.regMgr 0 [(5, 50)] [(1, 11)], .regMgr 1 [] [], .add 0 0 noDict, .add 1 0 { noDict with consts := [(5, 51)], stop := some 8 },
        .add 2 1 noDict, .run 0, .configure 1 { noDict with pts := [(0, 3)] }, .reset 1, .step 1 { noDict with consts := [(6, 60)] } 2,
        .step 0 { noDict with pts := [(0, 7)] } 2, .evalBase, .run 2]) 1).map (fun s => (s.meqs, s.mpts, s.mrs.stop, s.memo.length))
@@ -517,6 +1098,11 @@ example :
 #print axioms C06_partial
 #print axioms C06_witness_shared_points
 #print axioms C06_witness_base
+#print axioms C06_witness_shared_base_dict
+#print axioms C06_witness_late_registration
+#print axioms C06_partial_consts
+#print axioms C06_partial_nopoints
+#print axioms C06_partial_nobase
 #print axioms inv_run
 
 end Bptk.C06
